@@ -3,18 +3,28 @@ Layer 1: TxGuard.tla (implementation-shaped replay cache: 60 s buckets, block ca
 is model-checked for the window arithmetic; every transition of its state graph is replayed on the real txpool.TxGuard
 with real signed transactions; after every step the guard's answers ExistTxs(P, Q) for every live block P and a menu of
 transaction lists are logged and judged by TraceTxGuard.tla.
-Layer 2: see run()."""
+Layer 2: TxGuardChain.tla generates placements (same tx in two blocks of a branch, on two forks, twice in one block, in a
+box and standalone, twice in one box, re-encoded signature, expired / too early, before and after stable advances and
+restarts); the replayprot adapter builds them as REAL blocks with the real assembler and offers them to a real
+chain.BlockChain; verdicts and per-branch effects (recipient balances) are judged by TraceTxGuardChain.tla.  A recording
+driver lets the engine's own MineBlock mine with a pool filled by the engine's fork bookkeeping."""
 import vlib
 LEVEL = "model_checking"
 
 MANIFEST = dict(
     level="model_checking",
     text="TLC checks GuardSound/WindowSufficient/TracerComplete/NoDangling/LiveCached on the implementation-shaped replay cache for all "
-         "trees of 3 (exhaustive design run: 4, simulation: 5) blocks on a 30 s grid around the 1800 s lifetime / 60 s bucket boundaries, each "
-         "block carrying a subset of {t, t2 = re-encoded signature of t, box(t), u}, stable advances (pruning), duplicate saves and restarts; "
-         "every transition is replayed on the real TxGuard with real signed transactions and every ExistTxs answer is judged by TLC.",
-    note="The restart reload loop of BlockChain.initTxPool is reproduced by the layer-1 adapter (it needs a whole BlockChain).",
-    technique="TLA+ model checking (TxGuard.tla) + replay of the TLC state graph on the real guard/engine + TLC trace validation (TraceTxGuard.tla)")
+         "trees of 3 (design run: 4, simulation: 5) blocks on a 30 s grid around the 1800 s lifetime / 60 s bucket boundaries, each block carrying a subset of "
+         "{t, t2 = re-encoded signature of t, box(t), u}, with stable advances (pruning), duplicate saves and restarts; every transition is replayed on the real "
+         "TxGuard with real signed transactions and every ExistTxs answer is judged by TLC. TLC-generated placements (two blocks of one branch, two forks, twice in one "
+         "block, box + standalone, twice in one box, other signature encoding, expired / too early; before/after stable advances and restarts) are built as real blocks by "
+         "the real assembler, offered to a real chain.BlockChain, and TLC validates: accepted iff every payload takes effect at most once on the branch and inside its "
+         "window, and recipient balances grow by exactly the packaged occurrences; the engine's own MineBlock is driven with a pool refilled from side-fork blocks.",
+    note="Layer 1 reproduces the 10-line reload loop of BlockChain.initTxPool in the adapter (it needs a whole BlockChain); layer 2 restarts through the real "
+         "chain.NewBlockChain. Three genuine defects are carried as named deviations (Dev_TxMalleableEncoding, Dev_DupTxInBlock, Dev_MinerRepackagesChainTx). "
+         "Pool admission paths (SendTx / handleTxsMsg) are not driven.",
+    technique="TLA+ model checking (TxGuard.tla, TxGuardChain.tla) + replay of TLC state graphs / simulated behaviours on the real guard and the real engine + "
+              "TLC trace validation (TraceTxGuard.tla, TraceTxGuardChain.tla) + one recording driver (DPoVP.MineBlock)")
 
 
 def negative(ctx, cfg, want, module="MCTxGuard"):
